@@ -142,6 +142,7 @@ pub fn run(env: &mut Env) -> Outcome {
     let mut seen: Vec<(u32, InputEvent)> = Vec::new();
     for (_, _, m) in srv.history[base_hist..].iter() {
         match m {
+            ClientMsg::Share { pdu: SharePdu::Data { pdu, .. }, .. } if pdu.is_unrelated_legal() => {}
             ClientMsg::Share { pdu: SharePdu::Data { pdu: DataPdu::Input { events }, .. }, .. } => {
                 if events.len() != 1 {
                     return viol("c11/numEvents", "not-one", format!("an input PDU carries {} events", events.len()));
